@@ -1,43 +1,478 @@
+// hC35: runs chain33's block download protocol (system/p2p/dht/protocol/download)
+// between in-process libp2p hosts.  The downloading host executes the real
+// handleEventDownloadBlock / downloadBlock / checkTask; the serving hosts hand
+// every request to a controller that answers according to the generated
+// behaviour (ok / refuse / stall / malformed / wrong height) and fixes the
+// interleaving of the height goroutines (control.go).  One case = one task
+// with everything the peers and a fake blockchain module saw.
+//
+// No hook file in /repo is used.
 package main
 
 import (
 	"encoding/json"
 	"fmt"
+	"os"
+	"os/exec"
+	"path/filepath"
+	"strings"
+	"sync"
 
 	log "github.com/33cn/chain33/common/log/log15"
+	"verifharness/hlib"
 )
 
-func uniform(n, h int, b int) ([][]int, [][]int64) {
-	beh := make([][]int, n)
-	wr := make([][]int64, n)
-	for i := range beh {
-		beh[i] = make([]int, h)
-		wr[i] = make([]int64, h)
-		for j := range beh[i] {
-			beh[i][j] = b
+// ---------------------------------------------------------------- Coq rendering
+
+func respTerm(b int, wrong int64) string {
+	switch b {
+	case bOk:
+		return "ROk"
+	case bRefuse:
+		return "RRefuse"
+	case bStall:
+		return "RStall"
+	case bMalformed:
+		return "RMalformed"
+	default:
+		return "(W " + hlib.Z(wrong) + ")"
+	}
+}
+
+func natList(xs []int) string {
+	it := make([]string, len(xs))
+	for i, x := range xs {
+		it[i] = fmt.Sprint(x)
+	}
+	return "([" + strings.Join(it, "; ") + "]%nat)"
+}
+
+func zList(xs []int64) string {
+	it := make([]string, len(xs))
+	for i, x := range xs {
+		it[i] = hlib.Z(x)
+	}
+	return hlib.List(it)
+}
+
+func coqCase(cs *caseSpec, r *result) string {
+	var pids []string
+	for _, p := range cs.Pids {
+		switch {
+		case p >= 0:
+			pids = append(pids, fmt.Sprintf("P %d%%nat", p))
+		case p == -2:
+			pids = append(pids, "PSelf")
+		default:
+			pids = append(pids, "PBad")
 		}
 	}
-	return beh, wr
+	np := 0
+	for _, p := range append(append([]int(nil), cs.Pids...), cs.Conn...) {
+		if p+1 > np {
+			np = p + 1
+		}
+	}
+	var lat, beh []string
+	for p := 0; p < np; p++ {
+		lat = append(lat, hlib.N(uint64(cs.Lat[p])))
+		var row []string
+		for i := range cs.Beh[p] {
+			row = append(row, respTerm(cs.Beh[p][i], cs.Wrong[p][i]))
+		}
+		beh = append(beh, hlib.List(row))
+	}
+	ack := "None"
+	switch r.Ack {
+	case "ok":
+		ack = "(Some AckOk)"
+	case "start>end":
+		ack = "(Some AckStartGtEnd)"
+	case "no pid":
+		ack = "(Some AckNoPid)"
+	}
+	var tr []string
+	for _, o := range r.Trace {
+		switch o.K {
+		case "init":
+			tr = append(tr, "I "+natList(o.L))
+		case "req":
+			tr = append(tr, fmt.Sprintf("Q %s %d%%nat", hlib.Z(o.H), o.P))
+		case "del":
+			tr = append(tr, fmt.Sprintf("D %s %d%%nat", hlib.Z(o.H), o.P))
+		}
+	}
+	return hlib.App("Case", hlib.List(pids), natList(cs.Conn), hlib.List(lat), zList(cs.Adv[:np]),
+		hlib.List(beh), hlib.Z(cs.Start), hlib.Z(cs.End), ack, zList(r.Replies), hlib.List(tr),
+		hlib.Bool(r.Finished), hlib.Bool(r.Odd != ""))
+}
+
+// nontrivial: the task had something to tolerate or to reject
+func nontrivial(cs *caseSpec, r *result) bool {
+	if r.Ack != "ok" {
+		return true
+	}
+	for _, o := range r.Trace {
+		if o.K == "req" {
+			if b, _ := (&world{}).behOf(cs, o.P, o.H); b != bOk {
+				return true
+			}
+		}
+	}
+	return false
+}
+
+// ---------------------------------------------------------------- generators
+
+func newSpec(kind string, nh int, start int64) *caseSpec {
+	cs := &caseSpec{Kind: kind, Start: start, End: start + int64(nh) - 1,
+		Lat: make([]int64, poolSize), Adv: make([]int64, poolSize),
+		Beh: make([][]int, poolSize), Wrong: make([][]int64, poolSize), Conn: []int{}}
+	for p := 0; p < poolSize; p++ {
+		cs.Adv[p] = cs.End + 5
+		cs.Beh[p] = make([]int, nh)
+		cs.Wrong[p] = make([]int64, nh)
+	}
+	return cs
+}
+
+func somePeers(rng *hlib.Rng, k int) []int {
+	all := []int{0, 1, 2, 3, 4, 5}
+	hlib.Shuffle(rng, all)
+	return append([]int(nil), all[:k]...)
+}
+
+var failKinds = []int{bRefuse, bRefuse, bMalformed}
+
+func randLat(rng *hlib.Rng, cs *caseSpec) {
+	for p := range cs.Lat {
+		switch rng.Intn(4) {
+		case 0:
+			cs.Lat[p] = 0 // unknown -> one second
+		case 1:
+			cs.Lat[p] = 1000000000
+		default:
+			cs.Lat[p] = int64(1+rng.Intn(4)) * 1000000
+		}
+	}
+}
+
+// fillBeh: per peer a profile (healthy, dead, flaky per height), all peers high enough
+func fillBeh(rng *hlib.Rng, cs *caseSpec, peers []int, pFail int, wrong bool) {
+	nh := int(cs.End - cs.Start + 1)
+	for _, p := range peers {
+		profile := rng.Intn(100)
+		for i := 0; i < nh; i++ {
+			b := bOk
+			switch {
+			case profile < pFail/2: // dead for every height
+				b = hlib.Pick(rng, failKinds)
+			case profile < pFail+20: // fails some heights
+				if rng.Chance(1, 2) {
+					b = hlib.Pick(rng, failKinds)
+				}
+			}
+			if wrong && rng.Chance(1, 6) {
+				b = bWrong
+				if rng.Chance(1, 2) && nh > 1 {
+					// another height of the range
+					cs.Wrong[p][i] = cs.Start + int64((i+1+rng.Intn(nh-1))%nh)
+				} else {
+					cs.Wrong[p][i] = cs.End + 1 + int64(rng.Intn(3))
+				}
+			}
+			cs.Beh[p][i] = b
+		}
+	}
+}
+
+func genSingle(rng *hlib.Rng, guarded bool) *caseSpec {
+	kind := "single"
+	if guarded {
+		kind = "guarded-single"
+	}
+	cs := newSpec(kind, 1, int64(1+rng.Intn(50)))
+	peers := somePeers(rng, 1+rng.Intn(5))
+	cs.Pids = peers
+	randLat(rng, cs)
+	fillBeh(rng, cs, peers, 60, false)
+	if guarded {
+		// some peer serves the height
+		cs.Beh[peers[rng.Intn(len(peers))]][0] = bOk
+	} else if rng.Chance(1, 4) {
+		// decorate the pid list
+		var dec []int
+		for _, p := range peers {
+			if rng.Chance(1, 3) {
+				dec = append(dec, -1)
+			}
+			if rng.Chance(1, 4) {
+				dec = append(dec, -2)
+			}
+			dec = append(dec, p)
+		}
+		cs.Pids = dec
+	}
+	cs.Seed = rng.U64()
+	cs.Variant = rng.Intn(5)
+	return cs
+}
+
+func genMulti(rng *hlib.Rng, kind string) *caseSpec {
+	nh := 2 + rng.Intn(4)
+	if rng.Chance(1, 8) {
+		nh = 6 + rng.Intn(7)
+	}
+	cs := newSpec(kind, nh, int64(1+rng.Intn(1000)))
+	peers := somePeers(rng, 2+rng.Intn(4))
+	cs.Pids = peers
+	randLat(rng, cs)
+	switch kind {
+	case "guarded-multi":
+		// nothing fails: every peer serves every height
+	case "wrong":
+		fillBeh(rng, cs, peers, 50, true)
+	default:
+		fillBeh(rng, cs, peers, 70, false)
+	}
+	cs.Seed = rng.U64()
+	cs.Variant = rng.Intn(5)
+	return cs
+}
+
+func genAck(rng *hlib.Rng, i int) *caseSpec {
+	cs := newSpec("ack", 2, 10)
+	randLat(rng, cs)
+	peers := somePeers(rng, 2)
+	fillBeh(rng, cs, peers, 40, false)
+	switch i % 6 {
+	case 0: // start > end
+		cs.Pids = peers
+		cs.Start, cs.End = 11, 10
+	case 1: // no pid at all
+		cs.Pids = []int{}
+	case 2: // nothing decodes: the connected peers are used
+		cs.Pids = []int{-1, -1}
+		cs.Conn = peers
+	case 3: // nothing decodes and nobody is connected
+		cs.Pids = []int{-1}
+	case 4: // only the downloader itself
+		cs.Pids = []int{-2}
+		cs.Conn = peers
+	case 5: // a peer named twice
+		cs.Kind = "dup"
+		cs.Pids = []int{peers[0], peers[1], peers[0]}
+	}
+	cs.Seed = rng.U64()
+	return cs
+}
+
+// the witnesses of the recorded findings, with all peers high enough (no sleeping)
+func witnesses() []*caseSpec {
+	var out []*caseSpec
+	// aliasing: P0 refuses both heights, P1 serves both, P2 serves the first only.
+	// Goroutine of height 1 removes P0 and picks P1 (Index 0); goroutine of height 2 then
+	// removes index 0 of its longer view (= P1), keeps [P2,P2], asks P2 twice and gives up.
+	a := newSpec("witness-alias", 2, 1)
+	a.Pids = []int{0, 1, 2}
+	a.Beh[0] = []int{bRefuse, bRefuse}
+	a.Beh[2] = []int{bOk, bRefuse}
+	a.Fixed = []int64{1, 2, 2, 2}
+	out = append(out, a)
+	// wrong height accepted
+	b := newSpec("witness-wrong", 1, 1)
+	b.Pids = []int{0, 1}
+	b.Beh[0] = []int{bWrong}
+	b.Wrong[0] = []int64{2}
+	out = append(out, b)
+	// second phase asks the failed peer again
+	c := newSpec("witness-again", 1, 1)
+	c.Pids = []int{0}
+	c.Beh[0] = []int{bRefuse}
+	out = append(out, c)
+	return out
+}
+
+// slow cases (own process each): sleeping goroutines and real timeouts
+func slowCases(rng *hlib.Rng, thorough bool) []*caseSpec {
+	var out []*caseSpec
+	// the model's witness cfg_lost: both goroutines end up with nobody to ask and sleep out their retries
+	a := newSpec("slow-lost", 2, 1)
+	a.Pids = []int{0, 1, 2}
+	a.Adv = []int64{1, 2, 0, 0, 0, 0}
+	a.Beh[0] = []int{bRefuse, bOk}
+	a.Beh[1] = []int{bOk, bRefuse}
+	a.Fixed = []int64{2, 1}
+	a.Budget = 70
+	out = append(out, a)
+	// the model's witness cfg_reask
+	b := newSpec("slow-reask", 2, 1)
+	b.Pids = []int{0, 1}
+	b.Adv = []int64{1, 2, 0, 0, 0, 0}
+	b.Beh[0] = []int{bRefuse, bOk}
+	b.Beh[1] = []int{bOk, bRefuse}
+	b.Fixed = []int64{1, 2}
+	b.Budget = 70
+	out = append(out, b)
+	// a silent peer in front of a healthy one
+	c := newSpec("slow-stall", 1, 7)
+	c.Pids = []int{0, 1}
+	c.Lat = []int64{1, 2, 3, 4, 5, 6}
+	c.Beh[0] = []int{bStall}
+	c.Budget = 40
+	out = append(out, c)
+	// silent for one height only, the other goroutine carries on; and silent in phase two
+	c2 := newSpec("slow-stall", 2, 3)
+	c2.Pids = []int{0, 1}
+	c2.Lat = []int64{1, 2, 3, 4, 5, 6}
+	c2.Beh[0] = []int{bStall, bRefuse}
+	c2.Fixed = []int64{4, 3}
+	c2.Budget = 40
+	out = append(out, c2)
+	// nobody high enough: 50 looks, twice
+	d := newSpec("slow-low", 1, 9)
+	d.Pids = []int{0, 1}
+	d.Adv = []int64{8, 3, 0, 0, 0, 0}
+	d.Budget = 70
+	out = append(out, d)
+	if thorough {
+		for i := 0; i < 8; i++ {
+			nh := 2 + rng.Intn(2)
+			e := newSpec("slow-mixed", nh, int64(1+rng.Intn(20)))
+			peers := somePeers(rng, 2+rng.Intn(2))
+			e.Pids = peers
+			randLat(rng, e)
+			fillBeh(rng, e, peers, 60, false)
+			for _, p := range peers {
+				e.Adv[p] = e.Start - 1 + int64(rng.Intn(nh+1))
+			}
+			if rng.Chance(1, 3) {
+				e.Beh[peers[0]][0] = bStall
+			}
+			e.Seed = rng.U64()
+			e.Budget = 150
+			out = append(out, e)
+		}
+	}
+	return out
+}
+
+// ---------------------------------------------------------------- driver
+
+type childOut struct {
+	Spec *caseSpec `json:"spec"`
+	Res  result    `json:"res"`
+}
+
+func runChild(dir string) {
+	var cs caseSpec
+	b, err := os.ReadFile(filepath.Join(dir, "spec.json"))
+	if err != nil {
+		panic(err)
+	}
+	if err := json.Unmarshal(b, &cs); err != nil {
+		panic(err)
+	}
+	w := newWorld()
+	r := w.runCase(&cs)
+	ob, _ := json.Marshal(childOut{Spec: &cs, Res: r})
+	if err := os.WriteFile(filepath.Join(dir, "result.json"), ob, 0o644); err != nil {
+		panic(err)
+	}
 }
 
 func main() {
+	opts := hlib.ParseFlags()
 	log.Root().SetHandler(log.DiscardHandler())
-	w := newWorld()
-	// witness: 3 peers, P0 adv 1, P1,P2 adv 2; heights 1..2; P0 refuses h1, P1 refuses h2
-	beh, wr := uniform(6, 2, bOk)
-	beh[0][0] = bRefuse
-	beh[1][1] = bRefuse
-	cs := &caseSpec{Kind: "w", Pids: []int{0, 1, 2}, Lat: []int64{1, 2, 3, 4, 5, 6}, Adv: []int64{1, 2, 2, 9, 9, 9},
-		Start: 1, End: 2, Beh: beh, Wrong: wr, Fixed: []int64{1, 2}, Seed: 1}
-	for i := 0; i < 3; i++ {
-		r := w.runCase(cs)
-		b, _ := json.Marshal(r)
-		fmt.Println(string(b))
+	if strings.HasPrefix(opts.Extra, "child:") {
+		runChild(strings.TrimPrefix(opts.Extra, "child:"))
+		return
 	}
-	beh, wr = uniform(6, 4, bRefuse)
-	cs = &caseSpec{Kind: "w", Pids: []int{0, 1, 2, -1, -2}, Lat: []int64{0, 2, 0, 4, 5, 6}, Adv: []int64{9, 9, 9, 9, 9, 9},
-		Start: 1, End: 4, Beh: beh, Wrong: wr, Seed: 7}
-	r := w.runCase(cs)
-	b, _ := json.Marshal(r)
-	fmt.Println(string(b))
+	out := hlib.NewOut(opts.OutDir)
+	defer out.Close()
+	emit := func(cs *caseSpec, r *result) {
+		out.Emit(cs.Kind, nontrivial(cs, r), coqCase(cs, r), cs, r)
+	}
+	if opts.Replay != "" {
+		var cs caseSpec
+		if err := hlib.ReplayInput(opts.Replay, &cs); err != nil {
+			panic(err)
+		}
+		w := newWorld()
+		r := w.runCase(&cs)
+		emit(&cs, &r)
+		return
+	}
+	rng := hlib.NewRng(opts.Seed)
+
+	// slow cases run in child processes next to the fast lane
+	slow := slowCases(rng.Fork(), opts.Thorough())
+	slowRes := make([]*childOut, len(slow))
+	var wg sync.WaitGroup
+	sem := make(chan struct{}, 6)
+	for i, cs := range slow {
+		wg.Add(1)
+		go func(i int, cs *caseSpec) {
+			defer wg.Done()
+			sem <- struct{}{}
+			defer func() { <-sem }()
+			dir := filepath.Join(opts.OutDir, fmt.Sprintf("slow%d", i))
+			_ = os.MkdirAll(dir, 0o755)
+			b, _ := json.Marshal(cs)
+			_ = os.WriteFile(filepath.Join(dir, "spec.json"), b, 0o644)
+			_ = os.Remove(filepath.Join(dir, "result.json"))
+			cmd := exec.Command(os.Args[0], "--extra", "child:"+dir)
+			cmd.Stdout, cmd.Stderr = nil, nil
+			_ = cmd.Run()
+			var co childOut
+			if rb, err := os.ReadFile(filepath.Join(dir, "result.json")); err == nil && json.Unmarshal(rb, &co) == nil {
+				slowRes[i] = &co
+			} else {
+				slowRes[i] = &childOut{Spec: cs, Res: result{Ack: "none", Odd: "child process failed"}}
+			}
+		}(i, cs)
+	}
+
+	w := newWorld()
+	healthy := true
+	run := func(cs *caseSpec) {
+		if !healthy {
+			return
+		}
+		r := w.runCase(cs)
+		emit(cs, &r)
+		if !r.Finished {
+			// the task is still running inside this process: nothing after it can be trusted
+			healthy = false
+		}
+	}
+	for _, cs := range witnesses() {
+		run(cs)
+	}
+	n := 120
+	if opts.Thorough() {
+		n = 1500
+	}
+	for i := 0; i < 6; i++ {
+		run(genAck(rng, i))
+	}
+	for i := 0; i < n; i++ {
+		run(genSingle(rng, i%3 == 0))
+		run(genMulti(rng, "multi"))
+		run(genMulti(rng, "multi"))
+		if i%2 == 0 {
+			run(genMulti(rng, "wrong"))
+		}
+		if i%4 == 0 {
+			run(genMulti(rng, "guarded-multi"))
+		}
+		if i%10 == 0 {
+			run(genAck(rng, i/10))
+		}
+	}
+	wg.Wait()
+	for _, co := range slowRes {
+		emit(co.Spec, &co.Res)
+	}
+	fmt.Printf("hC35: %d cases (fast lane healthy: %v)\n", out.Count(), healthy)
 }
